@@ -508,3 +508,40 @@ func DrawICC(t *tape.Tape, o ICCOpts) *ICCProfile {
 	}
 	return p
 }
+
+// BuildMLUCFanIn renders a syntactically valid profile whose description is a
+// multiLocalizedUnicodeType with nrec records that all name the same string of
+// strBytes bytes (sharing strings between records is allowed by ICC.1 and
+// common in vendor profiles). Used as an amplification workload: the input is
+// 168+12*nrec+strBytes bytes, yet a reader that materialises every record
+// handles nrec*strBytes bytes.
+func BuildMLUCFanIn(nrec, strBytes int) *ICCProfile {
+	hdr := DrawICCHeader(tape.New(7, nil))
+	w := &builder{}
+	w.bytes(hdr)
+	w.u32be(1)
+	w.str("desc")
+	w.u32be(144)
+	tagSize := 16 + 12*nrec + strBytes
+	w.u32be(uint32(tagSize))
+	w.str("mluc")
+	w.u32be(0)
+	w.u32be(uint32(nrec))
+	w.u32be(12)
+	for i := 0; i < nrec; i++ {
+		w.u8(byte('a' + i%26))
+		w.u8(byte('a' + (i/26)%26))
+		w.u8(byte('A' + (i/676)%26))
+		w.u8(byte('A' + (i/17576)%26))
+		w.u32be(uint32(strBytes))
+		w.u32be(uint32(16 + 12*nrec))
+	}
+	for i := 0; i < strBytes; i += 2 {
+		w.u8(0)
+		w.u8(byte('A' + (i/2)%26))
+	}
+	PutBE(w.b, 0, 4, uint64(len(w.b)))
+	return &ICCProfile{Bytes: w.b, NTags: 1, HasDesc: true, DescKind: "mluc", DescOff: 144, DescSize: tagSize,
+		Fields:  []Field{{Name: "mluc.recordCount", Off: 152, Width: 4, Kind: "count"}},
+		Summary: fmt.Sprintf("ICC %d bytes, mluc fan-in: %d records sharing one %d-byte string", len(w.b), nrec, strBytes)}
+}
